@@ -3,7 +3,9 @@
    MaxLen in which only mappings believed live are ended.  Printed once each, for replay on the
    real Terminal.map_fmmu (the driver skips the ending of a mapping whose map failed).          *)
 EXTENDS Integers, Sequences, TLC, Json
-CONSTANTS Logicals, MaxLen
+CONSTANTS Logicals, MaxLen,
+          EndKinds      \* how a mapping may end: "unmap" (normally), "abort" (an exception thrown into its body),
+                        \* "unmapfail" / "abortfail" (the same while the terminal does not answer any more)
 VARIABLES hist, live
 Op(kind, m, w) == [op |-> kind, m |-> m, write |-> w]
 SInit == hist = <<>> /\ live = {}
@@ -13,7 +15,7 @@ SNext == /\ Len(hist) < MaxLen
                  /\ \E w \in BOOLEAN : hist' = Append(hist, Op("map", m, w))
                  /\ live' = live \cup {m}
               \/ /\ m \in live
-                 /\ \E k \in {"unmap", "abort"} : hist' = Append(hist, Op(k, m, FALSE))
+                 /\ \E k \in EndKinds : hist' = Append(hist, Op(k, m, FALSE))
                  /\ live' = live \ {m}
 SSpec == SInit /\ [][SNext]_<<hist, live>>
 Emit == Len(hist) = MaxLen => PrintT(<<"SCRIPT", ToJson(hist)>>)
